@@ -653,6 +653,26 @@ def run_id(case) -> Outcome:
             check_msg(new[0].msg, data, remote, "send_periodic")
             if new[0].period != period:
                 bad("send_periodic/period", f"period {new[0].period!r} want {period!r}")
+            if not remote and not D:
+                # the documented task.update(data): the frame that goes on transmitting keeps id, flags
+                # and format and carries the new data - on buses that modify the running task in place
+                # and on buses where the task has to be stopped and started again
+                for modifiable in (True, False):
+                    hub.modifiable_tasks = modifiable
+                    t1 = len(hub.tasks)
+                    try:
+                        tk = net.send_periodic(can_id, data, period, remote)
+                        nd = bytes(_id_data(can_id, 3 + i))
+                        tk.update(nd)
+                        live = [t for t in hub.tasks[t1:] if t.live]
+                        if len(live) != 1:
+                            bad("update/count", f"{len(live)} live tasks after update() (modify_data={modifiable})")
+                        else:
+                            check_msg(live[0].msg, nd, remote, f"update/modify_data={modifiable}")
+                        tk.stop()
+                    except Exception as e:
+                        bad("update/raises", f"update() after send_periodic(data={data!r}): {type(e).__name__}: {e}")
+                hub.modifiable_tasks = True
         try:
             task.stop()
         except Exception as e:
